@@ -739,8 +739,42 @@ def check_C19(tier, seed):
             raise ToolError("sendsync did not compile for an unrelated reason:\n" + p.stdout[-2000:])
     S = corpora.c19_corpus(seed, tier, scheds)
     parts = []
-    ev, cs, res = run_trace("C19", S, "Trace_Stream.tla", "Trace_Stream.cfg")
+    # Every instance's SOLO run (its twin) is executed in a process of its own, so that nothing another
+    # generator did can have influenced it; the interleaved runs of all cases share ONE process.
+    import concurrent.futures
+    binp = vlib.build_harness()
+    swd = vlib.workdir("run-C19")
+    jobs = []
+    for c in S.cases:
+        for k, sops in enumerate(c["solo"]):
+            jobs.append((c["id"], k, sops))
+
+    def solo_run(job):
+        cid, k, sops = job
+        sp, tp = os.path.join(swd, "solo_%d_%d.s" % (cid, k)), os.path.join(swd, "solo_%d_%d.t" % (cid, k))
+        vlib.write_ndjson(sp, [{"op": "reset"}] + sops)
+        vlib.drive(binp, sp, tp)
+        evs = [e for e in vlib.read_ndjson(tp) if e.get("e") != "reset"]
+        os.remove(sp)
+        os.remove(tp)
+        return cid, evs
+    solo_events = {}
+    with concurrent.futures.ThreadPoolExecutor(max_workers=12) as ex:
+        for cid, evs in ex.map(solo_run, jobs):
+            solo_events.setdefault(cid, []).extend(evs)
+    sp, tp = os.path.join(swd, "main.s"), os.path.join(swd, "main.t")
+    vlib.write_ndjson(sp, S.lines())
+    vlib.drive(binp, sp, tp)
+    ev = []
+    for cid, evs in vlib.split_events(vlib.read_ndjson(tp)):
+        ev.append(evs[0])
+        ev.extend(solo_events.get(cid, []))
+        ev.extend(evs[1:])
+    cs = vlib.split_events(ev)
+    res = vlib.validate_cases("C19", "Trace_Stream.tla", "Trace_Stream.cfg", cs, weight=default_weight)
     parts.append((ev, cs, res))
+    for c in S.cases:      # a replay re-runs twins and interleaving in one schedule
+        c["ops"] = [o for sops in c["solo"] for o in sops] + c["ops"]
     nviol += report_rejections("C19", res["rejected"], S)
     # the one real static: JitterRng::new() must not influence new_with_timer instances
     S2 = vlib.Sched()
@@ -756,6 +790,7 @@ def check_C19(tier, seed):
     parts.append((ev2, cs2, res2))
     nviol += report_rejections("C19", res2["rejected"], S2)
     cov = base_cov(parts, "TLC explores the instance machine (3 instances, 2 threads, every constructor / output interleaving, JitterRng::new()'s process-wide cache) and checks UsesOwnSeed, SoloResults, CacheOnlyAffectsNewStd and the frame property, with two negative controls (a process-wide and a thread-local seed cache); complete interleavings printed by TLC (2 instances x 3 outputs x thread assignments) are executed on persistent OS threads with instances moved between them, next to unscripted background threads hammering constructors of the same kinds (zero seeds, seed_from_u64(0)); every instance's outputs are validated by Trace_Stream against its own solo twin. distinct = distinct recorded events", ["Trace_Stream", "Trace_Jitter"])
+    cov["solo_runs_in_own_process"] = len(jobs)
     cov["mc_model"] = {"states_generated": mc["states"], "distinct": mc["distinct"], "interleavings_enumerated_by_TLC": len(scheds),
                        "interleavings_executed": len(S.cases), "negative_controls": ["LeakMode=global", "LeakMode=threadlocal"]}
     cov["send_sync_static_assertion_compiles"] = sendsync_ok
